@@ -16,7 +16,7 @@ func TestMain(m *testing.M) {
 func genCase(t *rapid.T) Case {
 	c := Case{}
 	c.TLS = rapid.SampledFrom([]string{"", "empty", "cert", "cert", "cert13", "cert13"}).Draw(t, "tls")
-	c.Client = rapid.SampledFrom([]string{"plain", "ssl", "ssl", "ssl", "ssl-stuffed-same", "ssl-stuffed-after", "ssl-twice", "cancel-first", "cancel-after-ssl", "cancel-in-tls", "garbage-hello"}).Draw(t, "client")
+	c.Client = rapid.SampledFrom([]string{"plain", "ssl", "ssl", "ssl", "ssl-stuffed-same", "ssl-stuffed-after", "ssl-twice", "ssl-inside-tls", "gss-inside-tls", "cancel-first", "cancel-after-ssl", "cancel-in-tls", "garbage-hello"}).Draw(t, "client")
 	c.Auth = rapid.Bool().Draw(t, "auth")
 	n := rapid.IntRange(0, 10).Draw(t, "nmsgs")
 	for i := 0; i < n; i++ {
